@@ -46,4 +46,28 @@ def urlSafe : Bytes → Bool
 def b64urlChar (c : UInt8) : Bool :=
   (65 ≤ c && c ≤ 90) || (97 ≤ c && c ≤ 122) || (48 ≤ c && c ≤ 57) || c == 45 || c == 95
 
+/-! ### form widget rendering -/
+
+/-- reference escaper: the inverse of `unescape` on the five references -/
+def refEscape (s : Bytes) : Bytes :=
+  s.flatMap fun c =>
+    if c == 60 then [38,108,116,59] else if c == 62 then [38,103,116,59]
+    else if c == 38 then [38,97,109,112,59] else if c == 34 then [38,113,117,111,116,59]
+    else if c == 39 then [38,35,51,57,59] else [c]
+
+/-- every position of `o` at which `tag` starts is the start of `want` -/
+def tagOnlyAs (tag want : Bytes) : Bytes → Bool
+  | [] => true
+  | c :: rest => (!(tag.isPrefixOf (c :: rest)) || want.isPrefixOf (c :: rest)) && tagOnlyAs tag want rest
+
+/-- Judge for a rendered widget `o` into which user text `s` (which starts with the unique
+alphanumeric 3-byte `tag`) was fed: wherever the tag shows up, the whole text follows in
+escaped form — it is never emitted raw or half-escaped. -/
+def userTextEscaped (o s : Bytes) : Bool := tagOnlyAs (s.take 3) (refEscape s) o
+
+/-- stream insertions of `src/form.cpp` that are raw **by design**: identifiers and attribute
+text chosen by the developer, not user input (documented in cppcms/form.h) -/
+def formRawAllowed : List String :=
+  ["id()", "id_", "name()", "name_", "type_", "attr_", "attributes_string()"]
+
 end Cppcms.C15.Spec
